@@ -319,6 +319,9 @@ func c10b(c *Ctx, r *Report) {
 		{"union: DeclareNode.Union ← the UnionDirective token's value", "Parser", "DeclareNode", "Union", []string{"$Unionstr", ".current.Value"}, []string{":"}},
 		{"epilogue: RootVistor.CodeCpy ← RootNode.rest", "Parser", "RootVistor", "CodeCpy", []string{".rest"}, []string{"="}},
 		{"epilogue: RootNode.rest ← input[current.EndAt:]", "Parser", "RootNode", "rest", []string{".current.EndAt:]"}, []string{":"}},
+		// an action body is ONE brace-balanced block as the lexer cut it out (C10.b action extent): the rule takes it by
+		// plain assignment — text glued to it (`+=`) is no longer one block and lands in the generated case as it is
+		{"action: oneRule.ActionCode ← the action element of the alternative", "Parser", "oneRule", "ActionCode", []string{`""`, ".Element"}, []string{":", "="}},
 	}
 	for _, s := range steps {
 		fv := lookupField(c, s.dir, s.typ, s.field)
